@@ -34,6 +34,23 @@ class _Raise(Exception):
         self.name = name
 
 
+def _same(a, b):
+    if a is b:
+        return True
+    try:
+        return type(a) is type(b) and bool(a == b)
+    except Exception:
+        return False
+
+
+def _join(a, b):
+    if _same(a, b):
+        return a
+    if isinstance(a, dict) and isinstance(b, dict) and set(a) == set(b):
+        return {k: _join(a[k], b[k]) for k in a}
+    return UNKNOWN
+
+
 class NT(object):
     """namedtuple instance value"""
 
@@ -365,7 +382,8 @@ class Folder(object):
                         return U
                 return U
         # calling a folded lambda / callable value
-        if isinstance(f, (ast.Lambda, ast.Call, ast.Subscript)) or (isinstance(f, ast.Name) and f.id in env and isinstance(env[f.id], (Lam, FnVal, NTClass))):
+        if isinstance(f, (ast.Lambda, ast.Call, ast.Subscript)) or (isinstance(f, ast.Name) and f.id in env and isinstance(env[f.id], (Lam, FnVal, NTClass))) \
+                or (isinstance(f, ast.Name) and f.id not in env and self.prog.lookup(f.id, at)[0] == "local" and isinstance(self._e(f, env, at), (Lam, FnVal))):
             fv = self._e(f, env, at)
             if isinstance(fv, Lam):
                 args = [self._e(a, env, at) for a in e.args]
@@ -505,6 +523,22 @@ class Folder(object):
             elif isinstance(s, ast.If):
                 t = self._e(s.test, env, s)
                 if t is UNKNOWN:
+                    # both branches, joined: a name keeps its value when both agree, a dict result keeps its keys
+                    outs = []
+                    for blk in (s.body, s.orelse):
+                        e2 = dict(env)
+                        try:
+                            self._block(blk, e2, at)
+                            outs.append(("fall", e2))
+                        except _Return as r:
+                            outs.append(("ret", r.value))
+                    if all(k == "fall" for k, _ in outs):
+                        a_, b_ = outs[0][1], outs[1][1]
+                        for k in set(a_) | set(b_):
+                            env[k] = a_[k] if (k in a_ and k in b_ and _same(a_[k], b_[k])) else UNKNOWN
+                        continue
+                    if all(k == "ret" for k, _ in outs):
+                        raise _Return(_join(outs[0][1], outs[1][1]))
                     raise _Return(UNKNOWN)
                 self._block(s.body if t else s.orelse, env, at)
             elif isinstance(s, ast.Try):
